@@ -2,10 +2,12 @@ package main
 
 import (
 	"fmt"
+	"github.com/bolkedebruin/rdpgw/cmd/rdpgw/security"
 	"net"
 	"strconv"
 	"strings"
 	"unicode/utf16"
+	"verif/shim/vclock"
 
 	"verif/internal/tsgu"
 	"verif/shim/vsched"
@@ -420,6 +422,40 @@ func c03(env *Env, rep *Report) {
 			b = 3
 		}
 		exploreConc(env, rep, sc, b, nil, c03ConcCheck(sc))
+	}
+	// the host of a token is reachable only through an ACCEPTED token: a client that connected and shook hands
+	// while its token was good and sends it 7 / 30 minutes later (lifetime five minutes) gets no connection to
+	// the token's host, whatever it then asks for; 3 minutes later it does
+	if env.Replay == nil && env.Shard == 0 {
+		for _, kind := range []string{"ws", "legacy"} {
+			for _, wait := range []string{"clock+3m", "clock+7m", "clock+30m"} {
+				vclock.Reset()
+				idp := InstallIdP()
+				idp.Mode = "honour"
+				security.SigningKey = []byte(c02Key)
+				ctx, _ := c02Ctx()
+				tok, _ := security.GeneratePAAToken(ctx, "alice", hostA+":3389")
+				g := GwCfg{TokenAuth: true, HostSelection: "roundrobin", Hosts: []string{hostA + ":3389"}, VerifyIP: true}
+				cfg := SeqCfg{Gw: g, Kind: kind, User: "", ClientIP: "10.0.0.1", RemoteAddr: "10.0.0.1:50000", Accept: func(string) bool { return true }}
+				segs := []Seg{{Bytes: tsgu.Handshake(1, 0, 0, tsgu.ExtAuthPAA)}, {Action: wait}, {Bytes: tsgu.TunnelCreate(tok, true)}, {Bytes: tsgu.TunnelAuth("pc")}, {Bytes: tsgu.ChannelCreate(hostA, 3389)}}
+				res := RunSeq(cfg, segs)
+				vclock.Reset()
+				distinct++
+				rep.add("executions", 1)
+				rep.add("transitions", int64(res.StepsRun))
+				dials := 0
+				for _, st := range res.Steps {
+					dials += len(st.Dials)
+				}
+				rep.outcome(fmt.Sprintf("token presented %s after the handshake, %s: dials=%d", wait[6:], kind, dials))
+				if wait == "clock+3m" && dials != 1 && len(res.Panics) == 0 {
+					rep.violate("C03/allowed-host-not-dialled/token-presented-within-its-lifetime", fmt.Sprintf("transport %s, token presented 3 minutes after the handshake: %d dials", kind, dials), map[string]any{"noreplay": true})
+				}
+				if wait != "clock+3m" && dials != 0 {
+					rep.violate("C03/host-of-a-token-that-was-not-accepted-dialled", fmt.Sprintf("transport %s: connected while the token was good, token presented %s later (lifetime 5 minutes, leeway 1): the token's host was dialled", kind, wait[6:]), map[string]any{"noreplay": true})
+				}
+			}
+		}
 	}
 	if gwBin() != "" && env.Shard == 0 {
 		bindCore(rep, "C03")
